@@ -183,6 +183,12 @@ def _task(args):
             from checks import sweep
             for seed in payload:
                 sweep.sweep_history(prop, seed, agg, opts)
+        elif kind == "smallscope":
+            from checks import sweep
+            for idx in payload:
+                rec = sweep.smallscope_record(idx, opts.get("max_len", 3))
+                w = run_record(rec)
+                agg.add_world(w, tag="small#%d" % idx)
         elif kind == "canary":
             from selftest import canaries
             cls = canaries.by_name(opts["canary"])
